@@ -196,6 +196,26 @@ func runGrefcount(c *Ctx) {
 							sawResolved = true
 						}
 					}
+					// … and the target container no longer holds the value
+					emptied, needEmpty := false, false
+					for j := g.sec[i]; j >= 0 && j < i; j++ {
+						b := p.Events[j]
+						if l := g.lits[j]; l != nil && strings.Contains(l.f.String(), "refcount.RefCount.target") && strings.Contains(l.f.String(), "nil") {
+							if ok, _ := implies([]*r2Lit{l}, fnot(eq("nil", "refcount.RefCount.target"))); ok {
+								needEmpty = true
+							}
+						}
+						if (b.Kind == core.KCall || b.Kind == core.KEnter) && b.Callee != nil && b.Callee.Name() == "SetValue" {
+							if sel, ok := unparen(b.Call.Fun).(*ast.SelectorExpr); ok {
+								if fv := fieldVar(sel.X, b.Frame); fv != nil && core.FieldName(fv) == "refcount.RefCount.target" {
+									emptied = true
+								}
+							}
+						}
+					}
+					a.note("R7", "refcount.(*RefCount).clearResolvedState/empty-target-before-release", ev.Pos, needEmpty && !emptied,
+						"when a target container holds the value it is emptied before the value is released",
+						"the value's release function runs on a path on which the target container was found set but was not emptied first: the container exposes a released value", p)
 					a.note("R7", "refcount.(*RefCount).clearResolvedState/notify-before-release", ev.Pos, sawResolved && !(cbsIdx >= 0 && cbsIdx < i),
 						"when a value was resolved, the reference callbacks are told it is gone before it is released",
 						"the value's release function runs before the reference callbacks were told the value is gone", p)
@@ -320,6 +340,7 @@ func runGrefcount(c *Ctx) {
 			}
 		})
 	}
+	releasedOnlyViaOnce(c, a)
 	// --- Access
 	if d := c.declByName("R12", "refcount", "RefCount", "Access"); d != nil {
 		name := core.FuncName(d.Obj)
@@ -418,4 +439,95 @@ func hasSelect(l *ast.FuncLit) bool {
 		return !found
 	})
 	return found
+}
+
+// releasedOnlyViaOnce (C10): in WaitWithReleased the client's released callback is called only from
+// a goroutine started inside the function handed to a sync.Once's Do.
+func releasedOnlyViaOnce(c *Ctx, a *agg) {
+	d := c.declByName("R12", "refcount", "RefCount", "WaitWithReleased")
+	if d == nil {
+		return
+	}
+	name := core.FuncName(d.Obj)
+	relParam := paramWhere(d, func(t types.Type) bool {
+		s, ok := t.Underlying().(*types.Signature)
+		return ok && s.Params().Len() == 0 && s.Results().Len() == 0
+	})
+	if relParam == nil {
+		c.MissingAnchor("R12", name+": the released callback parameter")
+		return
+	}
+	info := d.Pkg.TypesInfo
+	var stack []ast.Node
+	n := 0
+	ast.Inspect(d.Decl.Body, func(nd ast.Node) bool {
+		if nd == nil {
+			stack = stack[:len(stack)-1]
+			return true
+		}
+		stack = append(stack, nd)
+		call, ok := nd.(*ast.CallExpr)
+		if !ok {
+			return true
+		}
+		id, ok := unparen(call.Fun).(*ast.Ident)
+		if !ok || info.Uses[id] != types.Object(relParam) {
+			return true
+		}
+		n++
+		inGo, inOnce := false, false
+		for i := len(stack) - 1; i >= 0; i-- {
+			switch x := stack[i].(type) {
+			case *ast.GoStmt:
+				inGo = true
+			case *ast.CallExpr:
+				if sel, ok := unparen(x.Fun).(*ast.SelectorExpr); ok && sel.Sel.Name == "Do" && inGo {
+					if t := info.TypeOf(sel.X); t != nil && strings.HasSuffix(t.String(), "sync.Once") {
+						inOnce = true
+					}
+				}
+			}
+		}
+		if inGo && !inOnce {
+			// the function handed to Do may have been given a name first
+			ei := core.EscapesOf(c.Prog, d)
+			for i := len(stack) - 1; i >= 0 && !inOnce; i-- {
+				lit, ok := stack[i].(*ast.FuncLit)
+				if !ok {
+					continue
+				}
+				for obj, lits := range ei.Bound {
+					if len(lits) != 1 || lits[0] != lit {
+						continue
+					}
+					uses, viaDo := 0, 0
+					ast.Inspect(d.Decl.Body, func(x ast.Node) bool {
+						switch y := x.(type) {
+						case *ast.Ident:
+							if info.Uses[y] == obj {
+								uses++
+							}
+						case *ast.CallExpr:
+							if sel, ok := unparen(y.Fun).(*ast.SelectorExpr); ok && sel.Sel.Name == "Do" && len(y.Args) == 1 {
+								if t := info.TypeOf(sel.X); t != nil && strings.HasSuffix(t.String(), "sync.Once") {
+									if id, ok := unparen(y.Args[0]).(*ast.Ident); ok && info.Uses[id] == obj {
+										viaDo++
+									}
+								}
+							}
+						}
+						return true
+					})
+					if uses > 0 && uses == viaDo {
+						inOnce = true
+					}
+				}
+			}
+		}
+		a.note("R12", name+"/released-once-from-goroutine", call.Pos(), !(inGo && inOnce),
+			"the released callback is called only from a goroutine started under a sync.Once",
+			"the released callback is called outside the sync.Once / not from a new goroutine: it can fire twice, or run with the container's mutex held", nil)
+		return true
+	})
+	a.expect("R12", name+"/released-once-from-goroutine", 1, "the call of released in WaitWithReleased")
 }
